@@ -1,7 +1,7 @@
 (* C15 -- introspection reports exactly the schema.
    Statements only; proofs are in Proofs/IntrospectProofs.v.
    Model: Schema/IntrospectModel.v.  Spec: Spec/IntrospectSpec.v. *)
-From PyGql Require Exec.ExecModel Proofs.IntrospectExecProofs.
+From PyGql Require Exec.ExecModel Proofs.IntrospectExecProofs Exec.IntrospectSwitch Proofs.IntrospectSwitchProofs.
 From PyGql Require Import Spec.IntrospectSpec Proofs.IntrospectProofs.
 From Coq Require Import Sorting.Permutation Sorting.Sorted.
 
@@ -204,6 +204,108 @@ Theorem C15_typename_exec :
         (forall r, ExecModel.complete_named sch tyres sub_exec nodes n p v <> Ok r))).
 Proof. exact IntrospectExecProofs.typename_exec. Qed.
 Print Assumptions C15_typename_exec.
+
+(* Every reported defaultValue reads back: for a default accepted by the
+   decidable guard, the text _format_default_value reports parses, as GraphQL
+   value syntax, to exactly the literal denoting the declared default (an
+   absent default is reported null).  At a scalar-typed position the guard is:
+   floats with a finite float text, every boolean / integer / null, strings
+   free of characters needing an escape, and lists (nested) of denotable
+   values without characters above U+FFFF. *)
+Theorem C15_default_value_exact :
+  (forall (ts : list (itype pv)) t d,
+     match d with Some v => default_okb ts t v = true | None => True end ->
+     decode_default (Some (format_default_value d)) = Some (pd_exact ts t d)) /\
+  (forall (ts : list (itype pv)) t v,
+     is_scalar_name ts (iref_base t) = true ->
+     default_okb ts t v = match v with
+                          | PStr x => forallb plain_char x
+                          | PList _ => scalar_denotable v && negb (has_astral v)
+                          | _ => scalar_denotable v
+                          end).
+Proof. exact (conj default_value_exact default_okb_scalar_position). Qed.
+Print Assumptions C15_default_value_exact.
+
+(* Completeness: whatever the default values are, everything else is reported
+   exactly -- for every schema whose type references have at most 7 wrappers,
+   reading the answer back with the defaults disregarded yields the schema
+   with its defaults disregarded: every named type with its kind, every field,
+   argument, input field (with its wrappers), enum value, interface, union
+   member, directive (locations, arguments), root type, nothing missing and
+   nothing added, members in declaration order.  With unique type names no
+   type is listed twice, and possibleTypes / interfaces are symmetric:
+   T is among the possibleTypes reported for interface I exactly when I is among
+   the interfaces reported for T. *)
+Theorem C15_complete :
+  (forall s, schema_ok false s -> decode_shape (introspect_model s full_flags) = Some (public_shape s)) /\
+  (forall s fl l, NoDup (map t_name (s_types s)) ->
+     obind_ (schema_part (S_ "types") (introspect_model s fl)) names_of = Some l -> NoDup l) /\
+  (forall fl (ts : list (itype pv)) I T fsI fsT ifs lp li,
+     NoDup (map t_name ts) -> In T ts ->
+     t_def I = IInterface fsI -> t_def T = IObject fsT ifs ->
+     member_names (S_ "possibleTypes") (full_type fl ts I) = Some lp ->
+     member_names (S_ "interfaces") (full_type fl ts T) = Some li ->
+     (In (t_name T) lp <-> In (t_name I) li)).
+Proof. exact (conj decode_shape_exact (conj reported_type_names_nodup possible_interfaces_symmetry)). Qed.
+Print Assumptions C15_complete.
+
+(* The includeDeprecated law on whole answer trees: the answer with
+   includeDeprecated: false is the answer with includeDeprecated: true from
+   which the entries marked isDeprecated are removed from every "fields" and
+   "enumValues" list, order preserved, everything else identical -- for the
+   introspection query and for __type(name:) queries; a type all of whose
+   members are deprecated reports an empty list, not null. *)
+Theorem C15_deprecated_law :
+  (forall s d, introspect_model s (IFlags false d) = drop_deprecated (introspect_model s (IFlags true d))) /\
+  (forall s d n, type_query_model s (IFlags false d) n =
+                 drop_deprecated_type_query (type_query_model s (IFlags true d) n)) /\
+  (forall d (ts : list (itype pv)) t,
+     (forall fs, (exists ifs, t_def t = IObject fs ifs) \/ t_def t = IInterface fs ->
+        forallb (fun f => f_deprecated f) fs = true ->
+        getk (S_ "fields") (full_type (IFlags false d) ts t) = Some (PList [])) /\
+     (forall vs, t_def t = IEnum vs -> forallb ev_deprecated vs = true ->
+        getk (S_ "enumValues") (full_type (IFlags false d) ts t) = Some (PList []))).
+Proof. exact (conj introspect_drop_deprecated (conj type_query_drop_deprecated all_deprecated_empty_list)). Qed.
+Print Assumptions C15_deprecated_law.
+
+(* Disabling introspection, against the C04 executor model: the executor
+   [exec_sel_sw] is Exec/ExecModel.v's execute_fields loop with the switch of
+   ResolutionContext.field_definition added and nothing else changed.  Switch
+   off: it is the C04 executor.  Switch on: at every level the result is the
+   C04 model's own group loop run on the collected groups minus those whose
+   field is __typename / __schema / __type -- a refused meta-field leaves no
+   key and no error and nothing of it is evaluated, every other group goes
+   through the identical field_definition / resolve_field, for arbitrary
+   resolvers, type resolvers, argument coercion, fragments and variables. *)
+Theorem C15_disabled_exec :
+  forall (sch : SchemaModel.schema) (frags : Depth.frag_table) (vs : vars)
+         (coerce_args : SchemaModel.fdef -> Ast.selection -> outcome (list (str * pv)))
+         (world : ExecModel.world_t) (tyres : str -> option (pv -> ExecModel.tyname_res)) (cfuel : nat),
+  (forall disabled tname name,
+     IntrospectSwitch.field_definition_sw sch disabled tname name =
+     if disabled && IntrospectSwitch.is_meta_field name then Ok None
+     else ExecModel.field_definition sch tname name) /\
+  (forall fuel tname v p sels,
+     IntrospectSwitch.exec_sel_sw sch frags vs coerce_args world tyres cfuel false fuel tname v p sels =
+     ExecModel.exec_sel sch frags vs coerce_args world tyres cfuel fuel tname v p sels) /\
+  (forall fuel tname v p sels,
+     IntrospectSwitch.exec_sel_sw sch frags vs coerce_args world tyres cfuel true (S fuel) tname v p sels =
+     (do g <- ExecModel.collect_for sch frags vs cfuel tname sels;
+      do r <- ExecModel.exec_groups sch coerce_args world tyres
+                (IntrospectSwitch.exec_sel_sw sch frags vs coerce_args world tyres cfuel true fuel)
+                tname v p (IntrospectSwitch.drop_meta_groups g);
+      Ok (PDict (fst r), snd r))) /\
+  (forall g key node nodes,
+     In (key, node :: nodes) (IntrospectSwitch.drop_meta_groups g) <->
+     In (key, node :: nodes) g /\ IntrospectSwitch.is_meta_field (ExecModel.sel_name node) = false).
+Proof.
+  intros sch frags vs coerce_args world tyres cfuel. split; [|split; [|split]].
+  - intros. apply IntrospectSwitchProofs.field_definition_sw_law.
+  - apply IntrospectSwitchProofs.exec_sel_sw_off.
+  - apply IntrospectSwitchProofs.exec_sel_sw_on.
+  - apply IntrospectSwitchProofs.drop_meta_groups_spec.
+Qed.
+Print Assumptions C15_disabled_exec.
 
 (* ---- non-vacuity ---- *)
 Definition ex_iv (n : string) t d : iinput pv := IInput (S_ n) None t d.
